@@ -346,5 +346,62 @@ func c03(r *mon.Run) {
 			t.Count("deeply parenthesised spellings with the AST of the bare expression")
 			t.Nontrivial("deep:" + strconv.Itoa(d) + ":" + base)
 		}})
+	// white space and redundant parentheses change nothing - also for what recognises an expression from its
+	// text (short cuts for "simple" expressions), on every kind of document (JSON, maps holding Go structs,
+	// struct roots, pointers) and through every entry point
+	pths := [][]string{{"a"}, {"a", ".", "b"}, {"a", ".", "b", ".", "c"}, {"a", "[", "0", "]", ".", "b"}, {"a", ".", "b", "[", "0", "]"}, {"a", ".", "*"}, {"a", "[", "*", "]", ".", "b"}, {"a", "|", "b"}, {"a", ".", "b", "|", "c"},
+		{"metadata", ".", "name"}, {"metadata", ".", "labels", ".", "app"}, {"items", "[", "0", "]", ".", "name"}, {"items", "[", "*", "]", ".", "name"}, {"length", "(", "items", ")"}, {"metadata", ".", "Name"}}
+	type meta struct {
+		Name   string
+		Labels map[string]interface{}
+	}
+	type item struct{ Name string }
+	repDocs := []func() interface{}{
+		func() interface{} {
+			return docs.J(`{"a":{"b":{"c":1}},"metadata":{"name":"web","Name":"Web","labels":{"app":"x"}},"items":[{"name":"i0"}]}`)
+		},
+		func() interface{} {
+			return map[string]interface{}{"a": map[string]interface{}{"b": []interface{}{float64(1)}}, "metadata": meta{Name: "web", Labels: map[string]interface{}{"app": "x"}}, "items": []item{{"i0"}, {"i1"}}}
+		},
+		func() interface{} {
+			return map[string]interface{}{"a": []interface{}{map[string]interface{}{"b": "x"}}, "metadata": &meta{Name: "ptr"}, "items": []*item{{"p0"}, nil}}
+		},
+		func() interface{} {
+			return struct {
+				A        map[string]interface{}
+				Metadata meta
+				Items    []item
+			}{map[string]interface{}{"b": map[string]interface{}{"c": true}}, meta{Name: "root"}, []item{{"r0"}}}
+		},
+	}
+	ws = append(ws, mon.Workload{Name: "spellings-on-every-representation", N: len(pths) * len(repDocs),
+		Do: func(i int, t *mon.Tally) {
+			toks := pths[i/len(repDocs)]
+			mk := repDocs[i%len(repDocs)]
+			rng := gen.DeriveN(r.Seed, "c03rep", i)
+			spellings := []string{gen.JoinTight(toks), strings.Join(toks, " "), gen.JoinWS(toks, rng), "(" + gen.JoinTight(toks) + ")", "( " + strings.Join(toks, " ") + " )"}
+			var first string
+			for k, sp := range spellings {
+				for q, o := range []mon.Observed{apiSearch(sp, mk()), apiCompiledSearch(sp, mk())} {
+					t.Eval()
+					got := "error"
+					if o.Panicked {
+						got = "PANIC " + o.Panic
+					} else if o.Err == nil {
+						got = mon.Snapshot(docs.ToGeneric(o.V, false))
+					}
+					if k == 0 && q == 0 {
+						first = got
+						continue
+					}
+					if got != first {
+						r.Violate(&mon.Violation{Workload: "spellings-on-every-representation", Index: i, API: []string{"Search", "Compile+Search"}[q], Expr: sp, DocDesc: clipStr(mon.Snapshot(mk()), 500),
+							Expected: "the answer of the no-space spelling " + spellings[0] + " through one-shot Search: " + clipStr(first, 300), Observed: clipStr(got, 300), Class: "spelling or entry point changes the answer"})
+						return
+					}
+				}
+			}
+			t.Nontrivial("rep:" + spellings[0] + strconv.Itoa(i%len(repDocs)))
+		}})
 	r.Exec(ws...)
 }
